@@ -1,5 +1,6 @@
 import NanoVerif.Model.Proto
 import NanoVerif.Model.Tensor
+import NanoVerif.Model.TensorView
 /-! driver family `tensor` (C16): one self-contained op per line -/
 namespace NanoVerif.Driver.Tensor
 open NanoVerif.Proto NanoVerif.Tensor
@@ -16,7 +17,146 @@ def pBlock : P (Block Int) := fun ts => do
   let (d, ts) ← pList pInt ts
   pure (⟨r, c, d⟩, ts)
 
+/-- the owner of the assignment / write-through ops: filled with `offset + 1` (as the harness fills it) -/
+def seq (dims : List Nat) : T Int := ⟨dims, (List.range (size dims)).map (fun k => Int.ofNat (k + 1))⟩
+
+/-- the values written through a view: `-(j + 1)` at its `j`-th element -/
+def negs (n : Nat) : List Int := (List.range n).map (fun j => -Int.ofNat (j + 1))
+
+/-- integers exactly representable in a scalar type of the harness (binary32 / binary64: the contiguous range) -/
+def tyRange : String → Option (Int × Int)
+  | "i8" => some (-128, 127)
+  | "u8" => some (0, 255)
+  | "i16" => some (-32768, 32767)
+  | "i32" => some (-2147483648, 2147483647)
+  | "i64" => some (-9223372036854775808, 9223372036854775807)
+  | "f32" => some (-16777216, 16777216)
+  | "f64" => some (-9007199254740992, 9007199254740992)
+  | _ => none
+
+/-- the `offset + 1` owner, provided its values fit the element type -/
+def owner (ty : String) (dims : List Nat) : Option (T Int) := do
+  let (_, hi) ← tyRange ty
+  guard (Int.ofNat (size dims) ≤ hi)
+  pure (seq dims)
+
+/-- the object an accessor is called on — the owning tensor, the same as const, a map or a constant map of its
+    buffer, or the owning tensor with the `tensor_range_t` overload: all of them point at the start of the buffer and
+    carry the owner's dims -/
+def viaView (via : String) (t : T Int) : Option View :=
+  if via = "mem" ∨ via = "cmem" ∨ via = "map" ∨ via = "cmap" ∨ via = "range" then some t.view else none
+
+/-- `destination = view`: an owning destination (the aliased owner itself, a default-constructed one, one constructed from
+    the view, a bigger one, one with the same number of elements) becomes `assignView`; a destination mapping another
+    buffer of the view's shape (filled with -7) receives the elements one by one -/
+def assignTo (dst : String) (buf : List Int) (v : View) : Option (T Int) :=
+  if dst = "self" ∨ dst = "fresh" ∨ dst = "ctor" ∨ dst = "big" ∨ dst = "same" then some (assignView buf v)
+  else if dst = "omap" then do
+    let back : T Int := ⟨v.dims, List.replicate (size v.dims) (-7)⟩
+    let b' ← back.view.write back.data (v.read buf)
+    pure ⟨v.dims, b'⟩
+  else none
+
+def absInt (x : Int) : Int := if x < 0 then -x else x
+
 def handle : Toks → Option String
+  | "aslice" :: ts => do
+    let (dims, ts) ← pList pNat ts
+    let (b, ts) ← pNat ts
+    let (e, ts) ← pNat ts
+    let (via, ts) ← pStr ts
+    let (dst, ts) ← pStr ts
+    let (ty, ts) ← pStr ts
+    guard ts.isEmpty
+    let t ← owner ty dims
+    let v ← (← viaView via t).slice b e
+    let r ← assignTo dst t.data v
+    pure s!"ok 1 {showT r}"
+  | "asub" :: ts => do
+    let (dims, ts) ← pList pNat ts
+    let (pre, ts) ← pList pNat ts
+    let (via, ts) ← pStr ts
+    let (dst, ts) ← pStr ts
+    let (ty, ts) ← pStr ts
+    guard (ts.isEmpty ∧ pre.length < dims.length)
+    if dst = "self" then
+      -- the assigned tensor has the view's rank and owns the whole buffer (dims (n, 1, …)); the view is
+      -- `owner.reshape(dims…).tensor(prefix…)`
+      let t ← owner ty (size dims :: List.replicate (dims.length - pre.length - 1) 1)
+      let v ← (← (← viaView via t).reshape (dims.map Int.ofNat)).sub pre
+      pure s!"ok 1 {showT (assignView t.data v)}"
+    else
+      let t ← owner ty dims
+      let v ← (← viaView via t).sub pre
+      let r ← assignTo dst t.data v
+      pure s!"ok 1 {showT r}"
+  | "areshape" :: ts => do
+    let (dims, ts) ← pList pNat ts
+    let (sizes, ts) ← pList pInt ts
+    let (via, ts) ← pStr ts
+    let (dst, ts) ← pStr ts
+    let (ty, ts) ← pStr ts
+    guard (ts.isEmpty ∧ sizes.length = dims.length)
+    let t ← owner ty dims
+    let v ← (← viaView via t).reshape sizes
+    let r ← assignTo dst t.data v
+    pure s!"ok 1 {showT r}"
+  | "wsub" :: ts => do
+    let (dims, ts) ← pList pNat ts
+    let (pre, ts) ← pList pNat ts
+    let (kind, ts) ← pStr ts
+    let (ty, ts) ← pStr ts
+    guard (ts.isEmpty ∧ pre.length < dims.length)
+    -- tensor(i…), vector(i…), array(i…) and matrix(i…) alias the same elements (flat, or as rows × cols)
+    guard (kind = "tensor" ∨ kind = "vector" ∨ kind = "array" ∨ (kind = "matrix" ∧ pre.length + 2 = dims.length))
+    let t ← owner ty dims
+    let v ← t.view.sub pre
+    let b' ← v.write t.data (negs (size v.dims))
+    pure s!"ok {showT ⟨dims, b'⟩}"
+  | "wslice" :: ts => do
+    let (dims, ts) ← pList pNat ts
+    let (b, ts) ← pNat ts
+    let (e, ts) ← pNat ts
+    let (how, ts) ← pStr ts
+    let (ty, ts) ← pStr ts
+    guard (ts.isEmpty ∧ (how = "mem" ∨ how = "map" ∨ how = "range"))
+    let t ← owner ty dims
+    let v ← t.view.slice b e
+    let b' ← v.write t.data (negs (size v.dims))
+    pure s!"ok {showT ⟨dims, b'⟩}"
+  | "gatherinto" :: ts => do
+    let (dims, ts) ← pList pNat ts
+    let (idx, ts) ← pList pNat ts
+    let (odims, ts) ← pList pNat ts
+    let (mode, ts) ← pStr ts
+    guard (ts.isEmpty ∧ odims.length = dims.length)
+    -- the provided output holds -7 everywhere; a re-allocated one holds junk (-99): neither may survive
+    let out : T Int := ⟨odims, List.replicate (size odims) (-7)⟩
+    let r ←
+      if mode = "map" then (iota dims).gatherIntoMap idx out
+      else if mode = "mem" then (iota dims).gatherInto (-99) idx out
+      else if mode = "twice" then do
+        let o1 ← (iota dims).gatherInto (-99) (idx ++ idx) out
+        (iota dims).gatherInto (-99) idx o1
+      else none
+    pure s!"ok {showT r}"
+  | "integralx" :: ts => do
+    let (dims, ts) ← pList pNat ts
+    let (ity, ts) ← pStr ts
+    let (oty, ts) ← pStr ts
+    let (data, ts) ← pList pInt ts
+    guard (ts.isEmpty ∧ data.length = size dims)
+    let (ilo, ihi) ← tyRange ity
+    guard (data.all (fun x => decide (ilo ≤ x ∧ x ≤ ihi)))
+    if oty = "i32" then pure s!"ok {showT ⟨dims, integralWrapped 32 dims data⟩}"
+    else if oty = "i64" then pure s!"ok {showT ⟨dims, integralWrapped 64 dims data⟩}"
+    else if oty = "f64" then
+      -- binary64 sums are exact as long as every partial sum stays below 2^53: guaranteed when the sums of the
+      -- absolute values do
+      let (_, ohi) ← tyRange oty
+      guard ((T.integralX absInt ⟨dims, data⟩).data.all (fun x => decide (x ≤ ohi)))
+      pure s!"ok {showT (T.integralX id ⟨dims, data⟩)}"
+    else none
   | "offset" :: ts => do
     let (dims, ts) ← pList pNat ts
     let (idx, ts) ← pList pNat ts
